@@ -413,7 +413,7 @@ def b_roundtrip(g, spec):
     return ""
 
 
-def b_wrapper(g, wmagic, inner_spec, depth):
+def b_wrapper(g, wmagic, inner_spec, depth, twice=False):
     """A compressed wrapper (gzip stub) whose inner set is symbolic.  Absolute-offset oracle per protocol:
     magic 0: inner offsets are absolute as stored; magic 1: inner offsets are relative (ascending, possibly with gaps left
     by compaction) and abs_i = wrapper_offset - rel_last + rel_i."""
@@ -452,8 +452,25 @@ def b_wrapper(g, wmagic, inner_spec, depth):
         e1 = [(woff if wmagic == 0 else 0, KafkaCodec._encode_message(w1))]
         payload = gz_encode(ref.encode_message_set(e1))
     w = Message(wmagic, CODEC_GZIP, None, payload) if wmagic == 0 else Message(1, CODEC_GZIP, None, payload, g.int(*I64))
-    data = ref.encode_message_set([(woff, KafkaCodec._encode_message(w))])
-    got = list(KafkaCodec._decode_message_set_iter(data))
+    wbytes = KafkaCodec._encode_message(w)
+    if twice:
+        # the byte-identical wrapper a second time, further on in the log (what a produce retry after a lost acknowledgement leaves
+        # behind): its inner messages are reported relative to *its* offset
+        woff2 = woff + g.int(1, 2**20, "dup_distance")
+        data = ref.encode_message_set([(woff, wbytes), (woff2, wbytes)])
+        got = list(KafkaCodec._decode_message_set_iter(data))
+        if len(got) != 2 * n:
+            return "count %d" % len(got)
+        for i, om in enumerate(got[n:]):
+            want = exp_offs[i] if wmagic == 0 else exp_offs[i] + (woff2 - woff)
+            if not _same_msg(om.message, inner[i]):
+                return "inner message %d of the repeated wrapper differs" % i
+            if om.offset != want:
+                return "absolute offset of inner message %d of the repeated wrapper (magic %d)" % (i, wmagic)
+        got = got[:n]
+    else:
+        data = ref.encode_message_set([(woff, wbytes)])
+        got = list(KafkaCodec._decode_message_set_iter(data))
     if len(got) != n:
         return "count %d" % len(got)
     for i, om in enumerate(got):
@@ -526,6 +543,7 @@ def obligations(tier):
             sp = [(wm, kk, vk) for (_m, kk, vk) in spec]
             add("wrapper magic=%d inner=%r" % (wm, sp), "b_wrapper", timeout=90, wmagic=wm, inner_spec=sp, depth=1)
         add("wrapper magic=%d depth=2" % wm, "b_wrapper", timeout=120, wmagic=wm, inner_spec=[(wm, "1", "1")], depth=2)
+        add("wrapper magic=%d repeated" % wm, "b_wrapper", timeout=120, wmagic=wm, inner_spec=[(wm, "1", "n"), (wm, "e", "1")], depth=1, twice=True)
     return obs
 
 
